@@ -216,7 +216,8 @@ def check_predict_tracking(chk, rep, repo):
     bs = scans[0]
     li = bs.loop
     from ..rules_scan import ordered_scan
-    view = ordered_scan(w, bs, [])
+    view = ordered_scan(w, bs, [("attr", G, "n_nodes"), ("call", ("builtin", "len"), (("attr", G, "nodes"),), ()),
+                               ("call", ("builtin", "len"), (("attr", G, "idx_nodes"),), ())])
     if any(k == "position" for k, _ in view.problems):
         rep.fn("P1-position", fn, "scan position variable", False, dict(view.problems)["position"])
         return
